@@ -72,7 +72,7 @@ def base_case(draw, methods, hmin=5, hmax=120, even=False, pframes=False):
     method = draw(st.sampled_from(methods))
     back = draw(st.integers(0, 3)) == 0
     return dict(el=el, h=h, method=method, back=back, label=draw(st.sampled_from(LABELS)),
-                epoch_label=draw(st.sampled_from(LABELS)),
+                epoch_label=draw(st.sampled_from(LABELS)), spelling=draw(st.integers(0, 8)),
                 # the form and the (non-rotating) frame the initial orbit is held in
                 form=draw(st.sampled_from(["cartesian", "cartesian", "cartesian", "keplerian", "equinoctial", "spherical", "keplerian_mean"])),
                 frame=draw(st.sampled_from(["EME2000", "EME2000", "EME2000", "GCRF", "MOD", "G50"])),
@@ -92,10 +92,15 @@ def build(case, h=None, tol=1e-3):
     mu = earth.mu
     cart = tb.kep2cart(el["a"], el["e"], el["i"], el["raan"], el["argp"], el["nu"], mu)
     pframe = case.get("pframe", "EME2000")
+    # alternative spellings of the same configuration: the body alone / in a list / in a tuple, the method
+    # name in lower, upper or title case
+    sp = case.get("spelling", 0)
+    bodies = [earth, [earth], (earth,)][sp % 3]
+    method = [case["method"], case["method"].upper(), case["method"].title()][(sp // 3) % 3]
     if pframe == "EME2000":
-        prop = KeplerNum(timedelta(seconds=h or case["h"]), earth, method=case["method"], tol=tol)
+        prop = KeplerNum(timedelta(seconds=h or case["h"]), bodies, method=method, tol=tol)
     else:
-        prop = KeplerNum(timedelta(seconds=h or case["h"]), earth, method=case["method"], tol=tol, frame=pframe)
+        prop = KeplerNum(timedelta(seconds=h or case["h"]), bodies, method=method, tol=tol, frame=pframe)
     orb = Orbit(cart, mkdate(0), "cartesian", case.get("frame", "EME2000"), prop)
     if case.get("form", "cartesian") != "cartesian":
         orb.form = case["form"]
